@@ -15,8 +15,10 @@ package c31
 //   c31 u12 <bytes>                                            -> ok <vers> <suite> <createdAt> <ms> <certs> | err
 //   c31 m13 <suite> <createdAt> <secret> <certs> <ocsp> <scts> -> <bytes> | panic
 //   c31 u13 <bytes>                                            -> ok <suite> <createdAt> <secret> <certs> <ocsp> <scts> | err
-//   c31 res12 <keys> <ticket> <oracle> <disabled> <now> <vers> <clientSuites> <serverSuites> <auth> <flags> <expect>
+//   c31 res12 <keys> <ticket> <oracle> <disabled> <now> <vers> <helloVers> <clientSuites> <serverSuites> <auth> <flags> <expect>
 //                                                              -> full | resume <suite> <old> <vers> <createdAt> <ms> <certs>
+//     vers = c.vers, the version NEGOTIATED for the connection; helloVers = hs.clientHello.vers, the version the
+//     client OFFERED (its maximum).  The two are chosen independently: the decision must follow vers only.
 //   c31 res13 <keys> <disabled> <now> <suite> <modes> <auth> <nbinders> <id>;<id>… <expect>   id = <ticket>/<oracle>/<secret|n>
 //                                                              -> none | psk <i> | err <didResume>
 //   c31 rot <cfg> <cfc|n> <chunks> <times>    cfg = <disabled>/<legacy32|->/<keys>   -> per call <name8>@<created>,… joined by ";" | panic
@@ -499,16 +501,33 @@ func execRes12(f []string) zv.Out {
 	disabled := f[5] == "1"
 	now, _ := strconv.ParseInt(f[6], 10, 64)
 	vers, _ := strconv.Atoi(f[7])
-	cs, ss := unU16List(f[8]), unU16List(f[9])
-	auth, _ := strconv.Atoi(f[10])
-	flags, _ := strconv.Atoi(f[11])
-	expect := f[12]
+	hvers, _ := strconv.Atoi(f[8])
+	cs, ss := unU16List(f[9]), unU16List(f[10])
+	auth, _ := strconv.Atoi(f[11])
+	flags, _ := strconv.Atoi(f[12])
+	expect := f[13]
 	c := newConn(connParams{keys: keys, disabled: disabled, now: now, vers: uint16(vers), suites: ss, auth: auth})
-	resume, suite, st := tls.ZVC31Check12(c, t, cs, flags&8 != 0, flags&4 != 0, flags&2 != 0, flags&1 != 0)
+	resume, suite, st := tls.ZVC31Check12V(c, uint16(hvers), t, cs, flags&8 != 0, flags&4 != 0, flags&2 != 0, flags&1 != 0)
 	rpt, ridx := refDecrypt(keys, t)
 	viol := ""
 	out := "full"
 	tags := []string{"res12:expect=" + expect}
+	switch {
+	case hvers == vers:
+		tags = append(tags, "res12:offered=negotiated")
+	case hvers > vers:
+		tags = append(tags, "res12:offered>negotiated")
+	default:
+		tags = append(tags, "res12:offered<negotiated")
+	}
+	// the ticket's own version (reference decryption; sessionState starts with uint16 vers)
+	tvers := -1
+	if len(rpt) >= 2 {
+		tvers = int(rpt[0])<<8 | int(rpt[1])
+	}
+	if tvers >= 0 && tvers != vers && tvers == hvers {
+		tags = append(tags, "res12:ticket-version=offered≠negotiated")
+	}
 	if oracle != oracleFor(keys, t) {
 		viol = "harness: keystream oracle on the line does not belong to this (keys, ticket)"
 	}
@@ -523,7 +542,7 @@ func execRes12(f []string) zv.Out {
 		case st == nil || !bytes.Equal(tls.ZVC31MarshalState(st), rpt):
 			viol = "resumed session state is not the content of the presented ticket"
 		case st.Vers != uint16(vers):
-			viol = fmt.Sprintf("resumed a version %#x session on a %#x connection", st.Vers, vers)
+			viol = fmt.Sprintf("resumed a version %#x session on a connection that negotiated %#x (client offered %#x)", st.Vers, vers, hvers)
 		case suite != st.CipherSuite || !hasU16(cs, suite) || !hasU16(ss, suite):
 			viol = fmt.Sprintf("resumed with suite %#x; session has %#x, must be offered by the client and configured on the server", suite, st.CipherSuite)
 		case st.UsedOldKey != (ridx > 0):
@@ -536,7 +555,7 @@ func execRes12(f []string) zv.Out {
 	} else {
 		tags = append(tags, "res12:full")
 		if expect == "r" {
-			viol = "valid ticket in a matching scenario did not resume"
+			viol = fmt.Sprintf("valid ticket in a matching scenario did not resume (ticket version %#x, negotiated %#x, client offered %#x)", tvers, vers, hvers)
 		}
 	}
 	return zv.Out{Go: out, Viol: viol, Tags: tags}
@@ -787,15 +806,39 @@ type scen12 struct {
 	ticket   []byte
 	disabled bool
 	now      int64
-	vers     uint16
+	vers     uint16 // c.vers: negotiated
+	hvers    uint16 // hs.clientHello.vers: offered by the client; 0 = let emitRes12 choose
 	cs, ss   []uint16
 	auth     int
 	flags    int
 }
 
+// offeredFor picks the client's offered version for a connection that negotiated vers: equal (client maximum =
+// negotiated), above (server capped lower; real clients send at most 0x0303, old draft clients 0x0304), any of the
+// protocol versions including lower ones (supported_versions clients), or an arbitrary value.
+func (t *tgen) offeredFor(vers uint16) uint16 {
+	r := t.r
+	switch p := r.Intn(100); {
+	case p < 35:
+		return vers
+	case p < 60:
+		return 0x0303
+	case p < 75 && vers < 0x0304:
+		return vers + 1 + uint16(r.Intn(int(0x0304-vers)))
+	case p < 92:
+		return uint16(0x0300 + r.Intn(5))
+	case p < 96:
+		return 0x03ff
+	}
+	return uint16(r.Intn(1 << 16))
+}
+
 func (t *tgen) emitRes12(s scen12, expect string) {
-	t.g.Emitf("c31 res12 %s %s %s %s %d %d %s %s %d %d %s", keysStr(s.keys), zv.Hex(s.ticket), oracleFor(s.keys, s.ticket),
-		b01(s.disabled), s.now, s.vers, u16List(s.cs), u16List(s.ss), s.auth, s.flags, expect)
+	if s.hvers == 0 {
+		s.hvers = t.offeredFor(s.vers)
+	}
+	t.g.Emitf("c31 res12 %s %s %s %s %d %d %d %s %s %d %d %s", keysStr(s.keys), zv.Hex(s.ticket), oracleFor(s.keys, s.ticket),
+		b01(s.disabled), s.now, s.vers, s.hvers, u16List(s.cs), u16List(s.ss), s.auth, s.flags, expect)
 }
 
 type id13 struct {
@@ -1022,24 +1065,24 @@ func (t *tgen) genStates(scale int) {
 	// hand-made TLS 1.3 encodings exercising the extension grammar of unmarshalCertificate
 	pre := "0304" + "00" + "1301" + "0000000000000005" + "0101"
 	for _, certs := range []string{
-		"000000",                                 // no certificates
-		"000006" + "000001aa" + "0000",           // one cert, no extensions
+		"000000",                       // no certificates
+		"000006" + "000001aa" + "0000", // one cert, no extensions
 		"00000a" + "000001aa" + "0004" + "ffff0000", // unknown extension, empty
 		"00000c" + "000001aa" + "0006" + "ffff0002abcd",
-		"00000f" + "000001aa" + "0009" + "00050005" + "01000001bb",                       // status_request ocsp
-		"00000f" + "000001aa" + "0009" + "00050005" + "02000001bb",                       // wrong status type
-		"00000e" + "000001aa" + "0008" + "00050004" + "01000000",                         // empty staple
-		"000010" + "000001aa" + "000a" + "00050006" + "01000001bbcc",                     // trailing byte in ext
+		"00000f" + "000001aa" + "0009" + "00050005" + "01000001bb",                             // status_request ocsp
+		"00000f" + "000001aa" + "0009" + "00050005" + "02000001bb",                             // wrong status type
+		"00000e" + "000001aa" + "0008" + "00050004" + "01000000",                               // empty staple
+		"000010" + "000001aa" + "000a" + "00050006" + "01000001bbcc",                           // trailing byte in ext
 		"000018" + "000001aa" + "0012" + "00050005" + "01000001bb" + "00050005" + "01000001cc", // duplicate ocsp: last wins
-		"00000f" + "000001aa" + "0009" + "00120005" + "00030001dd",                       // sct
-		"00000c" + "000001aa" + "0006" + "00120002" + "0000",                             // empty sct list
-		"00000e" + "000001aa" + "0008" + "00120004" + "00020000",                         // empty sct
+		"00000f" + "000001aa" + "0009" + "00120005" + "00030001dd",                             // sct
+		"00000c" + "000001aa" + "0006" + "00120002" + "0000",                                   // empty sct list
+		"00000e" + "000001aa" + "0008" + "00120004" + "00020000",                               // empty sct
 		"000018" + "000001aa" + "0012" + "00120005" + "00030001dd" + "00120005" + "00030001ee", // duplicate sct ext: appended
-		"000015" + "000001aa" + "0000" + "000001bb" + "0009" + "00050005" + "02000001bb", // non-leaf extension content ignored
-		"000010" + "000001aa" + "0000" + "000001bb" + "0004" + "0005ffff",               // non-leaf extension with bad length
-		"000007" + "000001aa" + "0000" + "00",                                             // trailing garbage in list
-		"000005" + "000001aa" + "00",                                                     // truncated extensions length
-		"000008" + "000001aa" + "0002" + "0005",                                           // truncated extension header
+		"000015" + "000001aa" + "0000" + "000001bb" + "0009" + "00050005" + "02000001bb",       // non-leaf extension content ignored
+		"000010" + "000001aa" + "0000" + "000001bb" + "0004" + "0005ffff",                      // non-leaf extension with bad length
+		"000007" + "000001aa" + "0000" + "00",                                                  // trailing garbage in list
+		"000005" + "000001aa" + "00",                                                           // truncated extensions length
+		"000008" + "000001aa" + "0002" + "0005",                                                // truncated extension header
 	} {
 		g.Emitf("c31 u13 %s", pre+certs)
 		g.Emitf("c31 u13 %s", pre+certs+"00")
@@ -1125,6 +1168,13 @@ func (t *tgen) genRes12(scale int) {
 		}
 		base := scen12{keys: ks, ticket: tk, now: baseNow, vers: vers, cs: with(others()), ss: with(others()), auth: auth, flags: usableFlags(suite) | r.Intn(16)}
 		t.emitRes12(base, "r")
+		// offered vs negotiated version: the matching scenario with every relation between the two
+		// (client maximum above the negotiated version = server capped lower; equal; below = supported_versions client)
+		for _, hv := range []uint16{vers, 0x0303, 0x0302, 0x0301, 0x0304, 0x0300} {
+			s := base
+			s.hvers = hv
+			t.emitRes12(s, "r")
+		}
 		// one guard at a time
 		s := base
 		s.disabled = true
@@ -1140,7 +1190,13 @@ func (t *tgen) genRes12(scale int) {
 		for s.vers == vers {
 			s.vers = uint16(0x0301 + r.Intn(3))
 		}
-		t.emitRes12(s, "x")
+		// another version was negotiated: with the client offering the ticket's version (listener sharing the keys
+		// but capped lower / raised), the negotiated one, TLS 1.2, anything
+		for _, hv := range []uint16{vers, s.vers, 0x0303, 0} {
+			s.hvers = hv
+			t.emitRes12(s, "x")
+		}
+		s.hvers = 0
 		s = base
 		s.cs = others()
 		t.emitRes12(s, "x")
@@ -1191,6 +1247,9 @@ func (t *tgen) genRes12(scale int) {
 			if r.Chance(25) {
 				s.vers = uint16(0x0301 + r.Intn(3))
 			}
+			if r.Chance(40) {
+				s.hvers = []uint16{vers, s.vers, 0x0303, 0x0302, 0x0301}[r.Intn(5)]
+			}
 			if r.Chance(25) {
 				s.cs = others()
 			}
@@ -1237,6 +1296,27 @@ func (t *tgen) genRes12(scale int) {
 		}
 		s.ticket = refEncrypt(ks[j:], t.iv(), pl)
 		t.emitRes12(s, "x")
+	}
+	// version grid: ticket version x negotiated version x offered version, for a suite that is legal in every
+	// protocol version (so that the version test alone decides) and for a TLS 1.2-only suite
+	for rep := 0; rep < scale; rep++ {
+		for _, suite := range []uint16{[]uint16{0xc013, 0x002f, 0xc009, 0x0035}[r.Intn(4)], []uint16{0xc02f, 0x009c, 0xc02b, 0xcca8}[r.Intn(4)]} {
+			ks := t.keys(1 + r.Intn(2))
+			for _, tv := range []uint16{0x0300, 0x0301, 0x0302, 0x0303, 0x0304} {
+				st := t.state12(tv, suite, uint64(baseNow-int64(r.Intn(int(week)))), 48, 0)
+				tk := refEncrypt(ks, t.iv(), tls.ZVC31MarshalState(st))
+				for _, cv := range []uint16{0x0301, 0x0302, 0x0303} {
+					for _, hv := range []uint16{0x0300, 0x0301, 0x0302, 0x0303, 0x0304, 0xffff} {
+						expect := "x"
+						if tv == cv && (cv == 0x0303 || suite == 0xc013 || suite == 0x002f || suite == 0xc009 || suite == 0x0035) {
+							expect = "r"
+						}
+						t.emitRes12(scen12{keys: ks, ticket: tk, now: baseNow, vers: cv, hvers: hv, cs: []uint16{0xc02f, suite, 0x002f}, ss: []uint16{suite, 0xc013},
+							flags: usableFlags(suite)}, expect)
+					}
+				}
+			}
+		}
 	}
 	// createdAt corner values (uint64 -> int64 -> time.Unix wrap-around, Duration saturation)
 	off := uint64(62135596800)
